@@ -59,7 +59,11 @@ func rulePoolBare(c *Ctx, r *Rep, tier string) {
 				return
 			}
 			if isNilConst(st.Val) {
-				isNil = true
+				// only a store that every way through the method passes takes the block away
+				isStore := func(x ssa.Instruction) bool { return x == ins }
+				if _, around := pathTo(entryLoc(f), isReturn, isStore, nil); !around {
+					isNil = true
+				}
 			} else {
 				nonNil = true
 			}
@@ -102,7 +106,12 @@ func rulePoolBare(c *Ctx, r *Rep, tier string) {
 			println("method", f.Name(), returnsRecv0(f))
 		}
 	}
-	if len(dirty) == 0 || len(clean) == 0 {
+	if len(clean) == 0 {
+		r.Instance(rule, 1)
+		r.Fail(rule, "bgzf.(*decompressor)#takes-block", "-", "no method of decompressor takes the block away on every path (wait() must clear blk whether or not the read failed: a block left behind after a failure is shared between the reader, which was handed it, and the decompressor, which reads the next member into it)")
+		return
+	}
+	if len(dirty) == 0 {
 		unresolved("POOL-BARE: no method of decompressor sets / clears blk (dirty %d, clean %d)", len(dirty), len(clean))
 	}
 	// root of a decompressor expression: through methods that return their receiver
